@@ -97,8 +97,71 @@ func TestVerifBoundedLocalAddresses(t *testing.T) {
 }
 `
 
+const depthTest = `package diam
+
+import (
+	"fmt"
+	"testing"
+
+	"github.com/fiorix/go-diameter/v4/diam/dict"
+)
+
+func verifNested(depth int) []byte {
+	b := make([]byte, 0, 8*depth)
+	for i := 0; i < depth; i++ {
+		l := 8 * (depth - i)
+		b = append(b, 0, 0, 1, 4, 0x40, byte(l>>16), byte(l>>8), byte(l))
+	}
+	return b
+}
+
+// Grouped AVPs nested to every depth a 24-bit message length allows must decode (or be rejected) without killing
+// the process. A stack overflow is a fatal error: the test binary dies and the depths after it are never reported.
+func TestVerifBoundedNestingDepth(t *testing.T) {
+	for _, d := range []int{1, 2, 16, 1000, 100000, 500000, 2097150} {
+		_, err := DecodeAVP(verifNested(d), 0, dict.Default)
+		fmt.Printf("BOUNDED-DEPTH %d survived err=%v\n", d, err != nil)
+	}
+}
+`
+
+var depthCases = []string{"1", "2", "16", "1000", "100000", "500000", "2097150"}
+
 // boundedChecks: the stand-ins that belong to a property.
 func (e *Engine) boundedChecks(prop string, r *extraResult) {
+	if prop == "C03" {
+		out := e.runOverlayTest("diam", depthTest, "TestVerifBoundedNestingDepth")
+		survived := map[string]bool{}
+		for _, l := range strings.Split(out, "\n") {
+			if strings.HasPrefix(l, "BOUNDED-DEPTH ") {
+				f := strings.Fields(l)
+				if len(f) >= 3 {
+					survived[f[1]] = true
+				}
+			}
+		}
+		var fails []string
+		for _, d := range depthCases {
+			if !survived[d] {
+				fails = append(fails, "depth="+d)
+			}
+		}
+		why := ""
+		if strings.Contains(out, "stack overflow") {
+			why = " (fatal error: stack overflow - the process dies)"
+		}
+		detail := fmt.Sprintf("BOUNDED (not proved): grouped AVPs nested to depth %v decoded on the real code; failures: %v%s", depthCases, fails, why)
+		if len(survived) == 0 {
+			detail += " | the bounded test did not run: " + truncate(out, 600)
+		}
+		o := e.directObl("diam.DecodeGrouped#bounded.nesting_depth_up_to_the_message_size_limit", []string{"C03"}, len(fails) == 0 && len(survived) > 0, detail)
+		o.Res.Solver = "bounded enumeration"
+		o.Fails = fails
+		r.obls = append(r.obls, o)
+		r.coverage["bounded_stand_ins"] = []string{"diam.DecodeGrouped recursion depth: " + fmt.Sprint(len(depthCases)) + " nesting depths up to the 24-bit message limit (recursion depth is not expressible as a pre/postcondition without a ghost depth parameter); labelled bounded, not counted as proved"}
+		r.assumptions = append(r.assumptions, "recursion depth of DecodeGrouped is checked by bounded enumeration only")
+		return
+	}
 	if prop != "C11" && prop != "C12" {
 		return
 	}
@@ -120,6 +183,7 @@ func (e *Engine) boundedChecks(prop string, r *extraResult) {
 	}
 	o := e.directObl("sm.getLocalAddresses#bounded.an_address_for_every_ip_endpoint", []string{"C11", "C12"}, ok, detail)
 	o.Res.Solver = "bounded enumeration"
+	o.Fails = fails
 	r.obls = append(r.obls, o)
 	r.coverage["bounded_stand_ins"] = []string{"sm.getLocalAddresses: " + cases + " enumerated endpoint forms (string / net parsing is outside the verifier's subset); labelled bounded, not counted as proved"}
 	r.assumptions = append(r.assumptions, "sm.getLocalAddresses is checked by bounded enumeration only ("+cases+" endpoint forms); its contract is otherwise trusted")
